@@ -284,10 +284,11 @@ def nontrivial(case) -> bool:
 # running
 
 
-def fresh_final(cases, chunk: int = 1, workers: int = 8) -> list:
+def fresh_final(cases, chunk: int = 1, workers: int = 8, also_alone=None):
     """Reference (b): a new interpreter performs only the final op on task instances carrying their current values.
     `chunk` cases share one child process (each request starts with `Workflow.clear_cache()`, new classes, new task
-    instances, new cache roots); `chunk=1` is one interpreter per case."""
+    instances, new cache roots); `chunk=1` is one interpreter per case.  `also_alone`: cases that additionally get an
+    interpreter of their own in the same pool; then the result is the pair (answers for `cases`, answers for `also_alone`)."""
 
     def one(group):
         try:
@@ -307,18 +308,18 @@ def fresh_final(cases, chunk: int = 1, workers: int = 8) -> list:
         except subprocess.TimeoutExpired:
             return [{"child-failed": "timeout"}] * len(group)
 
-    groups = [cases[k : k + chunk] for k in range(0, len(cases), chunk)]
+    groups = [cases[k : k + chunk] for k in range(0, len(cases), chunk)] + [[c] for c in (also_alone or [])]
     with ThreadPoolExecutor(max_workers=workers) as ex:
-        return [r for rs in ex.map(one, groups) for r in rs]
+        flat = [r for rs in ex.map(one, groups) for r in rs]
+    return (flat[: len(cases)], flat[len(cases) :]) if also_alone is not None else flat
 
 
 def run_cases(ctx, cases, label="generated"):
     impls = [wfcache.run_history(c, ctx.scratch) for c in cases]
     # fresh interpreters: in chunks (one interpreter serves several cases, cache cleared in between), plus one interpreter
     # of its own for a sample of the cases — the two must give the same answers
-    refs = fresh_final(cases, chunk=max(1, (len(cases) + 7) // 8))
     sample = list(range(min(len(cases), ctx.pick(4, 40))))
-    own = fresh_final([cases[k] for k in sample], chunk=1)
+    refs, own = fresh_final(cases, chunk=max(1, (len(cases) + 7) // 8), also_alone=[cases[k] for k in sample])
     for k, r in zip(sample, own):
         if r != refs[k]:
             ctx.tie_broken.append({"kind": "fresh-interpreter-answers-differ", "case": cases[k], "own": r, "chunked": refs[k]})
@@ -364,7 +365,7 @@ def run_cases(ctx, cases, label="generated"):
         )
 
 
-def mutation_stream(ctx):
+def mutation_stream(ctx, refs=None):
     """In-place mutation of a list input between the operations (corpus/wfcache/mutation.jsonl: hand-written histories,
     each with the finding it must show or `null` = must agree with a fresh interpreter).  The Lean machine has immutable
     values, so there is no model party here: impl (history in this process) vs the fresh interpreter on the final op; a
@@ -375,7 +376,8 @@ def mutation_stream(ctx):
         return
     cases = [r["case"] for r in recs]
     impls = [wfcache.run_history(c, ctx.scratch) for c in cases]
-    refs = fresh_final(cases, chunk=max(1, (len(cases) + 3) // 4))
+    if refs is None:
+        refs = fresh_final(cases, chunk=max(1, (len(cases) + 7) // 8))
     shown = {}
     for r, c, i, ref in zip(recs, cases, impls, refs):
         if isinstance(ref, dict) and "child-failed" in ref:
@@ -435,18 +437,22 @@ def correspondence(ctx):
     cases += [gen_case(ctx.rng, max_ops=ctx.pick(6, 8)) for _ in range(n)]
     before = len(ctx.violations)
     run_cases(ctx, cases)
-    # the witnesses of the known findings: does the final op still differ from a fresh interpreter?
+    # one batch of fresh interpreters (≤ 8 children) for: the witnesses of the known findings, the domain boundary, and the
+    # in-place mutation histories
     wit = [r for r in findings if r["id"] in known]
-    if wit:
-        impl_last = [wfcache.run_history(r["case"], ctx.scratch)[-1] for r in wit]
-        fresh = fresh_final([r["case"] for r in wit])
-        for r, i, f in zip(wit, impl_last, fresh):
-            ctx.finding(r["id"], i != f, f"final op in the history: {json.dumps(i)[:160]}; fresh interpreter: {json.dumps(f)[:160]}")
-    mutation_stream(ctx)
-    # the domain boundary (not a finding): a constructor branching on a lazy input leaks through the superset path
-    for r in load_corpus("boundary.jsonl"):
+    boundary = load_corpus("boundary.jsonl")
+    mut = load_corpus("mutation.jsonl")
+    batch = [r["case"] for r in wit] + [r["case"] for r in boundary] + [r["case"] for r in mut]
+    fresh = fresh_final(batch, chunk=max(1, (len(batch) + 7) // 8)) if batch else []
+    f_wit, f_bnd, f_mut = fresh[: len(wit)], fresh[len(wit) : len(wit) + len(boundary)], fresh[len(wit) + len(boundary) :]
+    # the witnesses of the known findings: does the final op still differ from a fresh interpreter?
+    for r, f in zip(wit, f_wit):
         i = wfcache.run_history(r["case"], ctx.scratch)[-1]
-        f = fresh_final([r["case"]])[0]
+        ctx.finding(r["id"], i != f, f"final op in the history: {json.dumps(i)[:160]}; fresh interpreter: {json.dumps(f)[:160]}")
+    mutation_stream(ctx, f_mut)
+    # the domain boundary (not a finding): a constructor branching on a lazy input leaks through the superset path
+    for r, f in zip(boundary, f_bnd):
+        i = wfcache.run_history(r["case"], ctx.scratch)[-1]
         ctx.extra.setdefault("domain_boundary", {})[r["id"]] = "differs from fresh (as the model's hypothesis LazyParametric predicts)" if i != f else "agrees with fresh"
     del before
 
